@@ -68,7 +68,7 @@ class ChainHist(Engine):
             elif r < 0.72:
                 a = {'op': 'parse', 'i': rng.randrange(1 << 16), 'edit': None}
                 if rng.random() < 0.35:
-                    a['edit'] = {'how': rng.choice(['sub', 'del', 'ins', 'upper', 'swapcase1', 'trunc', 'dup']), 'pos': rng.randrange(1 << 16),
+                    a['edit'] = {'how': rng.choice(['sub', 'del', 'ins', 'upper', 'swapcase1', 'trunc', 'dup', 'fold', 'kelvin', 'fullwidth']), 'pos': rng.randrange(1 << 16),
                                  'ch': rng.choice('qpzry9x8gf2tvdw0s3jn54khce6mua7l123456789ABCDEFGHJKLMNPQRSTUVWXYZabcdefghijkmnopqrstuvwxyz0OIl')}
             elif r < 0.8:
                 a = {'op': 'parse_wv', 'version': rng.randint(1, 16), 'prog': gen.rhex(rng, rng.choice([2, 20, 32, 40, rng.randint(2, 40)])),
@@ -241,6 +241,16 @@ class ChainHist(Engine):
             return text[:p]
         if how == 'dup':
             return text + text
+        if how == 'fold':
+            return text[:p] + chr(0x100 + ord(text[p])) + text[p + 1:]
+        if how == 'fullwidth':
+            return text[:p] + chr(0xff00 + ord(text[p]) - 0x20) + text[p + 1:]
+        if how == 'kelvin':
+            u = text.upper()
+            i = u.find('K', p)
+            if i < 0:
+                i = u.find('K')
+            return u[:i] + '\u212a' + u[i + 1:] if i >= 0 else u
         return text
 
     def _check_obj(self, o, kind, payload, clause):
